@@ -115,11 +115,12 @@ type ApplyResult struct {
 	Passing    int      // ... that also make every expression true
 	ExprErrors int      // ... on which some expression raised an error
 	Invalid    bool     // a passing substitution left a head variable unbound
+	OrderDep   bool     // some substitution has both a false and a failing expression
 }
 
 // Ambiguous: the result depends on evaluation order (an expression failed on
 // some substitutions while others passed). Such cases are outside the fragment.
-func (r ApplyResult) Ambiguous() bool { return r.ExprErrors > 0 && r.Passing > 0 }
+func (r ApplyResult) Ambiguous() bool { return r.OrderDep || (r.ExprErrors > 0 && r.Passing > 0) }
 
 // Apply enumerates all substitutions by recursive back-tracking.
 func Apply(rule m.Rule, facts []m.Pred) ApplyResult {
@@ -136,15 +137,27 @@ func Apply(rule m.Rule, facts []m.Pred) ApplyResult {
 			return
 		}
 		res.Matches++
+		// every expression is evaluated: a binding on which one expression is
+		// false and another raises an error depends on short-circuiting between
+		// sibling expressions, which no property fixes
+		anyErr, anyFalse := false, false
 		for _, e := range rule.Exprs {
 			v, err := EvalTree(e, sub)
 			if err != nil {
-				res.ExprErrors++
-				return
+				anyErr = true
+			} else if v.K != m.KBool || !v.Bo {
+				anyFalse = true
 			}
-			if v.K != m.KBool || !v.Bo {
-				return
-			}
+		}
+		if anyErr && anyFalse {
+			res.OrderDep = true
+		}
+		if anyErr {
+			res.ExprErrors++
+			return
+		}
+		if anyFalse {
+			return
 		}
 		res.Passing++
 		head := m.Pred{Name: rule.Head.Name, Terms: make([]m.Term, len(rule.Head.Terms))}
